@@ -9,6 +9,7 @@ import ast
 
 from ..core import Rule, AnalysisError, norm
 from .. import pyfront, pytaint, rx, cfold, pysym
+from . import dmdroles
 
 W = "DigitalMetadataWriter"
 R = "DigitalMetadataReader"
@@ -81,8 +82,8 @@ class NoPerSampleKey(Exception):
 def _no_key_violation(r, e):
     uses_ts = "file_ts" in ast.unparse(e.wf) or "file_basename" in ast.unparse(e.wf)
     if not uses_ts:
-        raise AnalysisError("%s._sample_group_generator no longer derives file names (anchor vanished)" % W)
-    r.violation(e.m.rel, W + "._sample_group_generator", "samples are not grouped by itertools.groupby(samples, <placement formula>)",
+        raise AnalysisError("%s no longer derives file names (anchor vanished)" % e.m.qualname)
+    r.violation(e.m.rel, e.m.qualname, "samples are not grouped by itertools.groupby(samples, <placement formula>)",
                 "the file of each individual sample is no longer computed from that sample's own index with the formula the reader "
                 "uses (floor(k*d/(n*cadence))): writer and reader cannot be shown to agree on samples at file boundaries",
                 line=e.wf.lineno)
@@ -125,19 +126,20 @@ def _key_function(m, wf, e):
 
 def placement_exprs(repo=None):
     """(module, writer fn, writer key, reader fn)"""
-    m = pyfront.mod("digital_metadata", repo)
-    wf = m.fn(W + "._sample_group_generator")
+    ro = dmdroles.roles(repo)
+    m = ro.gen_view            # writer generator with its private helpers inlined (duck-types the module for the callers)
+    wf = m.fn()
     key = None
     for c in ast.walk(wf):
         if isinstance(c, ast.Call) and pyfront.call_name(c) in ("itertools.groupby", "groupby") and (
                 len(c.args) == 2 or pyfront.kwarg(c, "key") is not None):
             key = _key_function(m, wf, pyfront.kwarg(c, "key", 1))
             if key is None:
-                raise AnalysisError("%s._sample_group_generator: groupby key function `%s` not resolved" % (
-                    W, norm(ast.unparse(pyfront.kwarg(c, "key", 1)))))
+                raise AnalysisError("%s: groupby key function `%s` not resolved" % (
+                    ro.gen, norm(ast.unparse(pyfront.kwarg(c, "key", 1)))))
     if key is None:
         raise NoPerSampleKey(m, wf)
-    rf = m.fn(R + "._get_file_list")
+    rf = ro.filelist_view.fn()
     return m, wf, key, rf
 
 
@@ -149,7 +151,7 @@ def _writer_forms(m, wf, key):
                                           for c in ast.walk(n.iter)):
             loop = n
     if loop is None or not isinstance(loop.target, ast.Tuple) or not isinstance(loop.target.elts[0], ast.Name):
-        raise AnalysisError("%s._sample_group_generator: loop over the groupby result not recognised" % W)
+        raise AnalysisError("%s: loop over the groupby result not recognised" % m.qualname)
     idx = loop.target.elts[0].id
     pre = [x for x in wf.body]
     env = pysym.seq_env(pre, stop=loop)
@@ -158,12 +160,20 @@ def _writer_forms(m, wf, key):
     env2 = dict(env)
     env2[idx] = kbody
     pysym.seq_env(loop.body, env2)
-    fmt = [n for n in ast.walk(loop) if isinstance(n, ast.BinOp) and isinstance(n.op, ast.Mod) and isinstance(n.left, ast.Constant)
-           and isinstance(n.left.value, str) and "@" in n.left.value]
+    fold = cfold.Folder(getattr(m.module, "_repo_hint", None)) if False else None
+    fmt = []
+    for n in ast.walk(loop):
+        if isinstance(n, ast.BinOp) and isinstance(n.op, ast.Mod):
+            val = n.left.value if isinstance(n.left, ast.Constant) else None
+            if val is None and isinstance(n.left, ast.Name):
+                mv = m.module_assign(n.left.id)
+                val = mv.value if isinstance(mv, ast.Constant) else None
+            if isinstance(val, str) and "@" in val:
+                fmt.append(n)
     ts = [c for c in ast.walk(loop) if isinstance(c, ast.Call) and isinstance(c.func, ast.Attribute) and c.func.attr in (
         "fromtimestamp", "utcfromtimestamp")]
     if len(fmt) != 1 or not isinstance(fmt[0].right, ast.Tuple) or len(fmt[0].right.elts) != 2 or len(ts) != 1:
-        raise AnalysisError("%s._sample_group_generator: file-name format / fromtimestamp not found exactly once" % W)
+        raise AnalysisError("%s: file-name format / fromtimestamp not found exactly once" % m.qualname)
     # evaluate the two arguments at their program points
     envf = dict(env); envf[idx] = kbody
     pysym.seq_env(loop.body, envf, stop=m.enclosing(fmt[0], (ast.stmt,)))
@@ -203,7 +213,7 @@ def r1_exact_placement(repo=None, rid="C13.R1"):
         return _no_key_violation(r, e)
     tw = pytaint.Taint(wf, float_attrs=FLOAT_ATTRS)
     kt = tw.expr(key.body)
-    qn = W + "._sample_group_generator"
+    qn = m.qualname
     if kt == "F":
         r.violation(m.rel, qn, "groupby key: %s" % norm(ast.unparse(key.body)), "the file of a sample is chosen with floating-point "
                     "arithmetic: for non-integer sample rates a sample exactly on a file boundary is stored in the neighbouring "
@@ -228,7 +238,7 @@ def r1_exact_placement(repo=None, rid="C13.R1"):
         r.violation(m.rel, qn, "%s = %s" % (v, norm(ast.unparse(tw.why[v])) if v in tw.why else "?"),
                     "`%s` (part of the file path) is derived through floating point" % v, line=getattr(tw.why.get(v), "lineno", wf.lineno))
     tr = pytaint.Taint(rf, float_attrs=FLOAT_ATTRS)
-    qr = R + "._get_file_list"
+    qr = dmdroles.roles(repo).filelist
     rfv = tr.root_float_vars()
     if rfv:
         for v in rfv:
@@ -267,8 +277,8 @@ def r2_one_formula(repo=None):
         return _no_key_violation(r, e)
     loop, idx, file_c, sub_c, fmt, ts = _writer_forms(m, wf, key)
     params, rloop, forms = _reader_forms(m, rf)
-    qn = W + "._sample_group_generator"
-    qr = R + "._get_file_list"
+    qn = m.qualname
+    qr = dmdroles.roles(repo).filelist
     if "k" not in pysym.leaves(file_c):
         r.violation(m.rel, qn, "file timestamp %s" % pysym.show(file_c), "the timestamp in the file name does not depend on the "
                     "sample's own index", line=fmt.lineno)
@@ -313,8 +323,9 @@ def r2_one_formula(repo=None):
 def r3_format_agreement(repo=None):
     r = Rule("C13.R3", "writer and reader agree on metadata file and sub-directory name formats; both fit the listing grammar")
     m = pyfront.mod("digital_metadata", repo)
-    wf = m.fn(W + "._sample_group_generator")
-    rf = m.fn(R + "._get_file_list")
+    ro = dmdroles.roles(repo)
+    wf = ro.gen_view.fn()
+    rf = ro.filelist_view.fn()
     fold = cfold.Folder(repo)
 
     def fmts(fn):
@@ -344,24 +355,24 @@ def r3_format_agreement(repo=None):
     if eq:
         r.ok("%s writer %r / reader %r" % (m.rel, w1[0], r1[0]), "same language")
     else:
-        r.violation(m.rel, R + "._get_file_list", "writer %r vs reader %r" % (w1[0], r1[0]), "file name formats differ (witness %r)" % (
+        r.violation(m.rel, ro.filelist, "writer %r vs reader %r" % (w1[0], r1[0]), "file name formats differ (witness %r)" % (
             a if a is not None else b), line=rf.lineno)
     eq, a, b = sp["WS"].equals(sp["RS"])
     if eq:
         r.ok("%s writer strftime %r / reader %r" % (m.rel, w2[0], r2[0]), "same language")
     else:
-        r.violation(m.rel, R + "._get_file_list", "writer %r vs reader %r" % (w2[0], r2[0]), "sub-directory formats differ", line=rf.lineno)
+        r.violation(m.rel, ro.filelist, "writer %r vs reader %r" % (w2[0], r2[0]), "sub-directory formats differ", line=rf.lineno)
     ok, w = (sp["W"] & sp["NAMEOK"]).subset_of(sp["DMD"])
     if ok:
         r.ok("%s writer %r vs RE_DMDFILE" % (m.rel, w1[0]), "every name with a sane prefix (no '@', '/', not tmp.) is in the listing grammar")
     else:
-        r.violation(m.rel, W + "._sample_group_generator", "writer %r vs RE_DMDFILE" % w1[0], "a metadata file name is not accepted "
+        r.violation(m.rel, ro.gen, "writer %r vs RE_DMDFILE" % w1[0], "a metadata file name is not accepted "
                     "by the listing grammar (witness %r)" % w, line=wf.lineno)
     ok, w = sp["WS"].subset_of(sp["SUB"])
     if ok:
         r.ok("%s writer strftime vs _RE_SUBDIR" % m.rel, "included")
     else:
-        r.violation(m.rel, W + "._sample_group_generator", "strftime %r" % w2[0], "sub-directory not accepted by the listing grammar", line=wf.lineno)
+        r.violation(m.rel, ro.gen, "strftime %r" % w2[0], "sub-directory not accepted by the listing grammar", line=wf.lineno)
     r.guard(4)
     return r
 
@@ -372,7 +383,7 @@ def r4_subdir_per_file(repo=None):
         m, wf, key, rf = placement_exprs(repo)
     except NoPerSampleKey as e:
         return _no_key_violation(r, e)
-    q = W + "._sample_group_generator"
+    q = m.qualname
     g = m.cfg(q)
     loop, idx, file_c, sub_c, fmt, ts = _writer_forms(m, wf, key)
     heads = [n for n in g.nodes if n.kind == "cond" and n.ast is loop]
@@ -388,7 +399,8 @@ def r4_subdir_per_file(repo=None):
     for n in g.nodes:
         if isinstance(n.ast, ast.Assign) and len(n.ast.targets) == 1 and isinstance(n.ast.targets[0], ast.Name):
             defs_of.setdefault(n.ast.targets[0].id, []).append(n)
-    pre = {n.id for n in g.nodes if n.line is not None and n.line < loop.lineno}
+    in_loop = g.reach(body, avoid=[heads[0].id], skip_labels=("exc",))
+    pre = {n.id for n in g.nodes} - in_loop
     work = [x.id for x in ast.walk(oc.args[0]) if isinstance(x, ast.Name)]
     chain = []
     seen = set()
